@@ -52,10 +52,18 @@ def target_for(i, rng):
     return ("stream", cc if rng.random() < 0.5 else None)
 
 
-def gen_input(rng, target, knobs=None):
-    """-> dict(root, data(bytes), cc, enc, label, arms) - one well-formed input"""
+def gen_input(rng, target, knobs=None, huge=False):
+    """-> dict(root, data(bytes), cc, enc, label, arms) - one well-formed input.  huge: allow the rare magnitudes of the
+    knobs (a buffer of several / 32 k bytes, a list of hundreds of elements) - for properties whose runs decode the
+    input only a few times"""
     k = knobs or gen.Knobs(rng)
+    if huge == "many" and not k.many and rng.random() < 0.02:
+        k.many = rng.choice((65, 80, 100, 255, 256, 300))       # long lists of primitives (C04: a fault late in the list)
+    if huge == "lite":
+        k.huge_buf = rng.choice((1100, 2000, 3000)) if rng.random() < 0.012 else 0     # messages beyond 1 kB, cheap enough for many tasks
+        k.many = 0
     g = gen.Gen(rng, k)
+    g.allow_huge = bool(huge)
     kind = target[0]
     if kind == "struct":
         tree = g.node(target[1])
@@ -119,9 +127,107 @@ def bystanders(rng, n, knobs=None):
     return out
 
 
-def perturb(rng, main_specs, p_by=0.4, max_by=2):
-    """adds bystanders, picks source kinds for the main tasks and draws a concrete schedule"""
+ROOTS = ("capture.msg[3]", "x", "a.b.c", "m[0]", "trace[12].message")
+
+
+def enc_sweep_specs(rng, g, n, prefix="sweep"):
+    """bystander decodes that ask for parameter encryption on *any* command (also those without a size-prefixed first
+    parameter - their own outcome is never judged): every parameter layout of the tables gets its turn at the type
+    synthesis, which is what a bounded / keyed cache needs in order to forget something"""
+    L = layout()
+    out = []
+    for j in range(n):
+        cc = rng.choice(sorted(L.commands))
+        if rng.random() < 0.5:
+            tree = g.response(cc, enc=False, fail=False, n_sessions=1)
+            data, _ = gen.serialise(tree)
+            out.append(spec("%s%d" % (prefix, j), "Response", data, cc, True, strict=rng.random() < 0.5))
+        else:
+            tree, _ = g.command(cc=cc, n_sessions=1, enc=False, resp_enc=False)
+            data, items = gen.serialise(tree)
+            at = next(it for it in items if it[0] == "P" and it[1].endswith(".sessionAttributes"))
+            b = bytearray(data)
+            b[at[4]] |= 0x20          # decrypt attribute of the only session, in place
+            out.append(spec("%s%d" % (prefix, j), "Command", bytes(b), None, None, strict=rng.random() < 0.5))
+    return out
+
+
+def long_stream(rng, min_bytes, knobs=None):
+    """well-formed stream of at least min_bytes bytes (a long capture)"""
+    k = knobs or gen.Knobs(rng)
+    k.max_buf = max(k.max_buf, 32)
+    g = gen.Gen(rng, k)
+    trees, metas, n = [], [], 0
+    while n < min_bytes:
+        g.nodes = 0
+        cmd, rsp = g.exchange()
+        for t_, meta in ((cmd, dict(kind="command", cc=None, enc=None)), (rsp, dict(kind="response", cc=cmd[2], enc=True if rsp[7] else None))):
+            trees.append(t_)
+            metas.append(meta)
+            n += len(gen.serialise(t_)[0])
+    data, items, bounds = gen.serialise_stream(trees)
+    return dict(root=model.STREAM, data=data, cc=None, enc=None, items=items, arms=g.arms, knobs=k, bounds=bounds, metas=metas,
+                label="long-stream:%d" % len(trees))
+
+
+BLOCKS = (4096, 8192, 8192, 16384)
+
+
+def aligned_fault(rng, min_extra=300):
+    """a long capture in which the point where a fault is detected (the reference's consumed offset at the first problem)
+    falls exactly on a multiple of a block size a buffered reader would use.  Built by inserting one GetRandom exchange
+    with a fitting number of random bytes in front of the faulted exchange.  -> (inp, data, recs) or None"""
+    from .. import faults as F
+    B = rng.choice(BLOCKS)
+    inp = long_stream(rng, B + min_extra)
+    data, bounds = inp["data"], inp["bounds"]
+    o = model.decode(model.STREAM, data)
+    # the fault goes into one of the last messages that start beyond B - 2000
+    tmsgs = [j for j in range(len(bounds) - 1) if bounds[j] >= B - 2000] or [len(bounds) - 2]
+    j = rng.choice(tmsgs)
+    a, e = bounds[j], bounds[j + 1]
+    leaves = [i for i in F.constrained_leaves(o) if a <= o.items[i][4] < e]
+    sizes = [i for i, _r in o.sizefields if a <= o.items[i][4] < e]
+    f = None
+    if leaves and (rng.random() < 0.6 or not sizes):
+        f = F.fault_value(data, o, rng, idx=rng.choice(leaves))
+    elif sizes:
+        f = F.fault_size(data, o, rng, idx=rng.choice(sizes))
+    if not f:
+        return None
+    fdata, rec = f
+    o2 = model.decode(model.STREAM, fdata)
+    alts = [x for x in (o2.problem or []) if "rem_off" in x]
+    if not alts:
+        return None
+    r = rng.choice(alts)["rem_off"]
+    if rng.random() < 0.25:
+        r = min(len(fdata), r + 1)          # one byte beyond, for readers that fetch the look-ahead byte with the block
+    b = bounds[j - (j % 2)]                  # start of the exchange the faulted message belongs to
+    d = (-r) % B
+    if d < 24:
+        d += B
+    n = d - 24
+    if n > 65535:
+        return None
+    rnd = bytes(rng.randrange(256) for _ in range(n))
+    align = (b"\x80\x01\x00\x00\x00\x0c\x00\x00\x01\x7b" + n.to_bytes(2, "big")
+             + b"\x80\x01" + (12 + n).to_bytes(4, "big") + b"\x00\x00\x00\x00" + n.to_bytes(2, "big") + rnd)
+    new = fdata[:b] + align + fdata[b:]
+    rec = dict(rec, off=rec["off"] + len(align), aligned_to=B, kind=rec["kind"])
+    inp = dict(inp, data=data[:b] + align + data[b:], label="aligned-%d:%s" % (B, inp["label"]))
+    return inp, new, [rec]
+
+
+def perturb(rng, main_specs, p_by=0.4, max_by=2, roots=False):
+    """adds bystanders, picks source kinds for the main tasks and draws a concrete schedule.  roots: 10% of the runs decode
+    under a caller-chosen root path (a public parameter of every front-end) - only for oracles that work on the
+    root-relative items, not on event objects of different tasks"""
     specs = list(main_specs)
+    if roots and rng.random() < 0.1:
+        r = rng.choice(ROOTS)
+        for s in specs:
+            s["root_path"] = r
     for s in specs:
         if "source" not in s:
             s["source"] = rng.choice(world.SOURCE_KINDS)
@@ -158,6 +264,8 @@ def show_diff(got, exp, what="events"):
 def run_world(case, res=None):
     w = world.World(case["tasks"], case.get("schedule")).run()
     if res is not None:
+        if any(t.get("root_path") for t in case["tasks"]):
+            res.count("decoded-under-caller-chosen-root")
         res.sched = w.schedule_digest()
         res.digest = w.digest()
         res.count("steps", len(w.history))
@@ -208,7 +316,7 @@ def mk_case(rng, inp, data, recs, strict=True, extra=None, perturbation=True, **
     main = spec("main", inp["root"], data, inp["cc"], inp["enc"], strict=strict)
     specs = [main] + list(extra or [])
     if perturbation:
-        tasks, sched = perturb(rng, specs, p_by=0.2)
+        tasks, sched = perturb(rng, specs, p_by=0.2, roots=True)
     else:
         tasks, sched = specs, {"policy": "sequential"}
     case = {"input": {"root": inp["root"], "cc": inp["cc"], "enc": inp["enc"], "label": inp["label"],
@@ -251,7 +359,7 @@ def shrink_bytes_tail(case, tid="main"):
                 yield c
 
 
-def gen_malformed(rng, i, p_wellformed=0.1, allow_random=True):
+def gen_malformed(rng, i, p_wellformed=0.1, allow_random=True, huge=False):
     """one input of the C01-C06 families: well-formed, size / value / crash-point faults (single or
     multiple), history faults on streams, random bytes.  -> (inp, data, recs, family)"""
     from .. import faults as F
@@ -270,7 +378,23 @@ def gen_malformed(rng, i, p_wellformed=0.1, allow_random=True):
     elif rng.random() < 0.12:
         inp = gen_input(rng, ("stream", None))
     else:
-        inp = gen_input(rng, target_for(i, rng))
+        inp = gen_input(rng, target_for(i, rng), huge=huge)
+    if huge and rng.random() < 0.0015:
+        # a long capture in which one size field is corrupted upwards by several kB (a flipped upper byte): the declared
+        # end lies thousands of bytes further on, inside the input
+        inp = long_stream(rng, rng.choice((5500, 6000, 9000)))
+        o = model.decode(inp["root"], inp["data"])
+        cands = [(idx, ri) for idx, ri in o.sizefields if o.items[idx][4] < len(inp["data"]) // 3]
+        if cands:
+            idx, ri = rng.choice(cands)
+            it = o.items[idx]
+            room = len(inp["data"]) - (o.regions[ri].start + (o.regions[ri].max or 0))
+            lo_, hi_ = layout().bounds(it[2])
+            if room > 4200:
+                new = min(hi_, it[3] + rng.randint(4097, min(room - 1, 60000)))
+                f = F.fault_size(inp["data"], o, rng, idx=idx, value=new)
+                if f:
+                    return inp, f[0], [dict(f[1], delta="far")], "far-size"
     o = model.decode(inp["root"], inp["data"], cc=inp["cc"], enc=inp["enc"])
     data = inp["data"]
     if r < 0.05 + p_wellformed:
